@@ -177,7 +177,8 @@ def jobs(tier):
                   unwind=["--slice-formula"] + UW(6, "uintLength.0:66", "%s:%d" % (me, re_me), "%s:0" % other),
                   timeout=600 if tier != "thorough" else 1800, mem_gb=10)
         if tier == "thorough":
-          J("canary.bint." + f, "h_%s_ss_sg1" % f, [f], bk("a")[:-1] + bk("b0")[:-1] + ["same"], cls="B", bound=B3,
+          # sign case a >= 0, b < 0: the bintPlus canary drops the sign of b, which only shows when b is negative
+          J("canary.bint." + f, "h_%s_ss_sg2" % f, [f], bk("a")[:-1] + bk("b0")[:-1] + ["same"], cls="B", bound=B3,
           unwind=["--slice-formula"] + UW(6, "uintLength.0:66", "%s:0" % me, "%s:0" % other),
             timeout=1800, mem_gb=10, defs=["-DCANARY_" + f], kind="canary")
 
